@@ -432,6 +432,19 @@ func (v *view) rangeOp(op pql.Token, bitDepth uint, predicate int64) (*Row, erro
 	return r, nil
 }
 
+// notNull returns the columns of a BSI view that hold a value.
+func (v *view) notNull() (*Row, error) {
+	r := NewRow()
+	for _, frag := range v.allFragments() {
+		other, err := frag.notNull()
+		if err != nil {
+			return nil, err
+		}
+		r = r.Union(other)
+	}
+	return r, nil
+}
+
 // upgradeViewBSIv2 upgrades the fragments of v. Returns ok true if any fragment upgraded.
 func upgradeViewBSIv2(v *view, bitDepth uint) (ok bool, _ error) {
 	// If reading from an old formatted BSI roaring bitmap, upgrade and reload.
